@@ -15,6 +15,7 @@ RULE = (
     "straddling two references) in 1-D/2-D/3-D, tiny enumerated maps, generated split/noise families; every threshold "
     "class of the single-candidate scores. Non-trivial = some reference overlapped by at least two predictions; distinct "
     "= hash of (arrays, metric, threshold)."
+    ' Further families: long-lived matchers on buffers refilled in place, mixed layouts, fragments with far-away tails in volumes up to 2^21 voxels, 20..40 fragments with widely spread labels (decided exactly for IoU/Dice by the ascending inside/outside ratio order).'
 )
 ASSUMPTIONS = [
     "the order in which predictions were added to a reference is the insertion order of the returned label map",
